@@ -5,8 +5,10 @@
    linear-hashtbl/src/raw.rs) under adversarial hash functions: refinement of HashTbl,
    ProbeTerminates, free-slot accounting, ... over the COMPLETE reachable state graph of a small
    key universe (all call sequences of any length), or up to a bound on the number of calls.
-   A violated invariant is attributed to the last call of the counterexample; the model check is
-   repeated without that call so that violations behind it are found, too.
+   A violated invariant is reported and attributed to the last call of its counterexample; the
+   model check is then repeated with that invariant switched off and, if this is violated again,
+   without the call, so that violations behind the first one are found, too (and the export of
+   step 2 is complete).
 2. T: the same TLC runs print, for every reachable table layout, the calls that reach it, and a
    sample of all transitions; a selection that covers every situation tag (tombstone reuse,
    wrap-around, rehash, grow, shrink, ...) is replayed on the real RawTable with the model's hash
@@ -42,7 +44,7 @@ CONFIGS = [
     ("small", 1, {"quick": {"HT_KEYS": 5, "HT_MAXOPS": 0}, "thorough": {"HT_KEYS": 7, "HT_MAXOPS": 0}},
      ["+grow", "+shrink", "+shrink0", "+rehash", "reuse", "+wrap"]),
     # two tables: clone, then the tables diverge
-    ("clone", 2, {"quick": {"HT_KEYS": 3, "HT_MAXOPS": 4}, "thorough": {"HT_KEYS": 3, "HT_MAXOPS": 9}},
+    ("clone", 2, {"quick": {"HT_KEYS": 3, "HT_MAXOPS": 4}, "thorough": {"HT_KEYS": 3, "HT_MAXOPS": 7}},
      ["clone", "totomb"]),
     # equal below the mask of 16 slots, different above it
     ("above", 1, {"thorough": {"HT_KEYS": 5, "HT_MAXOPS": 0}}, ["reuse", "+tomb", "+grow"]),
@@ -65,7 +67,7 @@ def _mc_once(cfg, env, workers, timeout):
     last_action = None
     for line in out.splitlines():
         if line.startswith('"PATH '):
-            paths.append(json.loads(json.loads(line)[5:]))
+            paths.append(json.loads(line)[5:])       # kept as JSON text (there may be 10^6 of them)
         elif line.startswith('"BAD '):
             s = json.loads(line)[4:]
             name, js = s.split(" ", 1)
@@ -136,31 +138,44 @@ def _model_check(ck, name, env, workers, timeout):
     return None
 
 
-def _select(paths, budget, rng, min_per_sit=12):
-    """choose behaviours to replay: every situation tag at least `min_per_sit` times (shortest
-    paths ending in it), then leaves of the prefix tree (they cover every printed state) and
-    sampled transitions, within `budget` calls"""
-    uniq = {}
-    for p in paths:
-        uniq.setdefault(json.dumps(p), p)
-    paths = list(uniq.values())
-    by_sit = {}
-    for p in paths:
-        if p:
-            by_sit.setdefault(p[-1][7], []).append(p)
+def _select(paths, budget, rng, min_per_sit=12, reservoir=40000):
+    """choose behaviours to replay from the printed paths (JSON texts): every situation tag at least
+    `min_per_sit` times (the shortest paths ending in it), then, from a uniform sample of the
+    paths, those that are not a prefix of another sampled path, within `budget` calls"""
+    by_sit, sample, seen = {}, [], set()
+    n = 0
+    for txt in paths:
+        if txt in seen:
+            continue
+        seen.add(txt)
+        n += 1
+        p = json.loads(txt)
+        if not p:
+            continue
+        best = by_sit.setdefault(p[-1][7], [])
+        if len(best) < min_per_sit or len(p) < best[-1][0]:
+            best.append((len(p), txt))
+            best.sort()
+            del best[min_per_sit:]
+        if len(sample) < reservoir:
+            sample.append(txt)
+        else:
+            j = rng.randrange(n)
+            if j < reservoir:
+                sample[j] = txt
+    del seen
     chosen, used = {}, 0
     for sit in sorted(by_sit):
-        ps = sorted(by_sit[sit], key=len)[:min_per_sit]
-        for p in ps:
-            k = json.dumps(p)
-            if k not in chosen:
-                chosen[k] = p
-                used += len(p)
+        for (ln, txt) in by_sit[sit]:
+            if txt not in chosen:
+                chosen[txt] = json.loads(txt)
+                used += ln
+    parsed = [json.loads(t) for t in sample]
     prefixes = set()
-    for p in paths:
+    for p in parsed:
         for i in range(len(p)):
             prefixes.add(json.dumps(p[:i]))
-    leaves = [p for p in paths if json.dumps(p) not in prefixes]
+    leaves = [p for p in parsed if json.dumps(p) not in prefixes]
     rng.shuffle(leaves)
     for p in leaves:
         if used + len(p) > budget:
@@ -169,7 +184,7 @@ def _select(paths, budget, rng, min_per_sit=12):
         if k not in chosen:
             chosen[k] = p
             used += len(p)
-    return list(chosen.values()), len(paths), len(leaves)
+    return list(chosen.values()), n, len(leaves)
 
 
 def _sit_counts(behaviours):
@@ -188,7 +203,7 @@ def c17(ck, tier, seed):
         "home slots wrapping around the last slot / equal below the mask / spread / MIN_CAP scaled to 4 for growth and "
         "shrinking) refines HashTbl with ProbeTerminates, FreeSound, LoadBound, LenExact, KeysUnique, Reachable, StructOK over "
         "the complete reachable state graph of 4-5 (quick) / 5-7 (thorough) keys (HT_MAXOPS=0: call sequences of any length) "
-        "resp. all sequences of <= 4 / <= 9 calls on two tables with clone; "
+        "resp. all sequences of <= 4 / <= 7 calls on two tables with clone; "
         "T: for every reachable layout the calls reaching it plus a 1/K sample of all transitions are printed by TLC; "
         "replayed on the real RawTable<(u32,u32),S> (S=u32 and usize) with the model's hash values: every situation tag "
         ">= 12 times, then prefix-tree leaves within the budget; audit (get of every key, iter, len) after every mutating call; "
@@ -200,7 +215,7 @@ def c17(ck, tier, seed):
     # linear-hashtbl (mutation experiments; /repo and /verif/harness stay untouched)
     binary = vlib.build_harness(package_dir=os.environ.get("VERIF_C17_HARNESS") or vlib.HARNESS)
     files, cmds = [], []
-    budget = 12000 if quick else 150000
+    budget = 12000 if quick else 80000
     all_sits = {}
     for (name, ntab, tiers, must_sits) in CONFIGS:
         if tier not in tiers:
@@ -228,7 +243,7 @@ def c17(ck, tier, seed):
                 f.write(json.dumps({"cfg": "model-" + name + "-counterexample", "hash": hashes, "tabs": ntab, "ops": p}) + "\n")
             for p in chosen:
                 f.write(json.dumps({"cfg": "model-" + name, "hash": hashes, "tabs": ntab, "ops": p}) + "\n")
-        ck.cov.setdefault("replay", []).append({"cfg": name, "paths_printed": n_paths, "prefix_tree_leaves": n_leaves,
+        ck.cov.setdefault("replay", []).append({"cfg": name, "paths_printed": n_paths, "sampled_maximal_paths": n_leaves,
                                                 "behaviours_replayed": len(chosen) + len(cex),
                                                 "calls": sum(len(p) for p in chosen), "calls_disabled_in_model": disabled, "invariants_switched_off": skipped})
         if len(ck.cov["samples"]) < 2 and chosen:
